@@ -149,6 +149,10 @@ MUTATORS = ('append', 'extend', 'insert', 'add', 'update', 'pop', 'remove', 'sor
 def mutated_locals(fi):
     """Locals that are mutated in place (subscript stores, mutating method calls): never inlined."""
     out = set()
+    loads = {}
+    for n in ast.walk(fi.node):
+        if isinstance(n, ast.Name) and isinstance(n.ctx, ast.Load):
+            loads[n.id] = loads.get(n.id, 0) + 1
     for n in walk_shallow(fi.node):
         if isinstance(n, (ast.Assign, ast.AugAssign)):
             tgts = n.targets if isinstance(n, ast.Assign) else [n.target]
@@ -163,11 +167,13 @@ def mutated_locals(fi):
                 and isinstance(n.func.value, ast.Name):
             out.add(n.func.value.id)
         elif isinstance(n, ast.Expr) and isinstance(n.value, ast.Call):
-            # a call made only for its side effects may mutate the objects passed to it
+            # a call made only for its side effects may mutate the objects passed to it; that matters only for a local
+            # that is read again somewhere else
             for a in list(n.value.args) + [k.value for k in n.value.keywords]:
-                if isinstance(a, ast.Name):
+                if isinstance(a, ast.Name) and loads.get(a.id, 0) > 1:
                     out.add(a.id)
-    return out - set(fi.params) - {'self'}
+    # temporaries made by hoisting a nested helper call stand for the expression they replaced
+    return {x for x in out if not x.startswith(('__h', '__r__i'))} - set(fi.params) - {'self'}
 
 
 def _collect(fi, inline_depth=60, keep=()):
@@ -192,6 +198,8 @@ def _collect(fi, inline_depth=60, keep=()):
             return True
         if isinstance(last, ast.If) and last.orelse:
             return terminates(last.body) and terminates(last.orelse)
+        if isinstance(last, ast.Try) and not last.finalbody:
+            return terminates(last.body + last.orelse) and all(terminates(h.body) for h in last.handlers)
         return False
 
     def visit(stmts, ctx, tail=False, drop_last_continue=False):
@@ -392,12 +400,47 @@ class HelperInliner:
         depth = self.depth if depth is None else depth
         if expr is None or depth <= 0:
             return expr
-        if not any(isinstance(n, ast.Call) and self.resolve(n)[0] is not None and self.simple(self.resolve(n)[0]) is not None for n in ast.walk(expr)):
-            return expr
         me = self
+
+        def func_ref(v):
+            # a bare reference to a single-expression repo function handed over as a value (key=self._score)
+            if isinstance(v, (ast.Name, ast.Attribute)) and dotted(v):
+                callee, is_m = me.resolve(ast.Call(func=v, args=[], keywords=[]))
+                if callee is not None and me.simple(callee) is not None:
+                    return callee, is_m
+            return None
+
+        def interesting(n):
+            if not isinstance(n, ast.Call):
+                return False
+            if self.resolve(n)[0] is not None and self.simple(self.resolve(n)[0]) is not None:
+                return True
+            return any(func_ref(v) for v in list(n.args) + [k.value for k in n.keywords])
+        if not any(interesting(n) for n in ast.walk(expr)):
+            return expr
+
+        def eta(v):
+            fr = func_ref(v)
+            if fr is None:
+                return v
+            callee, is_m = fr
+            a = callee.node.args
+            if a.vararg or a.kwarg or a.kwonlyargs:
+                return v
+            names = [x.arg for x in a.posonlyargs + a.args]
+            if is_m or (callee.cls is not None and names and names[0] in ('self', 'cls') and not any(dotted(d) == 'staticmethod' for d in callee.node.decorator_list)):
+                names = names[1:]
+            n_required = len(names) - len(a.defaults)
+            names = names[:max(n_required, 1)] if names else names
+            lam = ast.Lambda(args=ast.arguments(posonlyargs=[], args=[ast.arg(arg=n) for n in names], vararg=None, kwonlyargs=[], kw_defaults=[], kwarg=None, defaults=[]),
+                             body=ast.Call(func=v, args=[ast.Name(id=n, ctx=ast.Load()) for n in names], keywords=[]))
+            return ast.fix_missing_locations(ast.copy_location(lam, v))
 
         class T(ast.NodeTransformer):
             def visit_Call(self, node):
+                node.args = [eta(x) for x in node.args]
+                for k in node.keywords:
+                    k.value = eta(k.value)
                 self.generic_visit(node)
                 callee, is_method = me.resolve(node)
                 if callee is None:
@@ -450,9 +493,65 @@ class HelperInliner:
         return T().visit(copy_ast(expr))
 
 
+def _fuse_comprehensions(e):
+    """`f(x) for x in [y for y in S if c(y)] if d(x)`  is  `f(y) for y in S if c(y) if d(y)`: a comprehension that only
+    filters (its element is its own variable) and is iterated once by another comprehension is fused into it."""
+    class F(ast.NodeTransformer):
+        def fuse(self, node):
+            self.generic_visit(node)
+            g0 = node.generators[0]
+            inner = g0.iter
+            if isinstance(inner, (ast.ListComp, ast.GeneratorExp)) and len(inner.generators) == 1 and isinstance(g0.target, ast.Name) \
+                    and not (isinstance(inner.elt, ast.Name) and isinstance(inner.generators[0].target, ast.Name) and inner.elt.id == inner.generators[0].target.id) \
+                    and not g0.is_async and len(node.generators) == 1:
+                # mapping inner comprehension: `g(x) for x in [f(y) for y in S if c(y)] if d(x)` is `g(f(y)) for y in S if c(y) if d(f(y))`
+                ov = g0.target.id
+                ig = inner.generators[0]
+                inner_bound = {x.id for x in ast.walk(ig.target) if isinstance(x, ast.Name)}
+                outer_other = ({x.id for x in ast.walk(node) if isinstance(x, ast.Name)} - {x.id for x in ast.walk(inner) if isinstance(x, ast.Name)}) - {ov}
+                from .core import free_names
+                if not (inner_bound & outer_other) and ov not in free_names(inner):
+                    elt = inner.elt
+
+                    class M(ast.NodeTransformer):
+                        def visit_Name(self, n):
+                            if n.id == ov and isinstance(n.ctx, ast.Load):
+                                return copy_ast(elt)
+                            return n
+                    if isinstance(node, ast.DictComp):
+                        node.key = M().visit(node.key)
+                        node.value = M().visit(node.value)
+                    else:
+                        node.elt = M().visit(node.elt)
+                    outer_ifs = [M().visit(i) for i in g0.ifs]
+                    g0.target = ig.target
+                    g0.iter = ig.iter
+                    g0.ifs = list(ig.ifs) + outer_ifs
+                    return node
+            if isinstance(inner, (ast.ListComp, ast.GeneratorExp)) and len(inner.generators) == 1 and isinstance(g0.target, ast.Name) \
+                    and isinstance(inner.elt, ast.Name) and isinstance(inner.generators[0].target, ast.Name) \
+                    and inner.elt.id == inner.generators[0].target.id and not g0.is_async:
+                iv, ov = inner.elt.id, g0.target.id
+                outer_names = {x.id for x in ast.walk(node) if isinstance(x, ast.Name)} - {ov}
+                if iv != ov and iv in outer_names:
+                    return node
+
+                class R(ast.NodeTransformer):
+                    def visit_Name(self, n):
+                        if n.id == iv:
+                            n.id = ov
+                        return n
+                ifs = [R().visit(copy_ast(i)) for i in inner.generators[0].ifs]
+                g0.iter = inner.generators[0].iter
+                g0.ifs = ifs + g0.ifs
+            return node
+        visit_ListComp = visit_SetComp = visit_GeneratorExp = visit_DictComp = fuse
+    return F().visit(e)
+
+
 def _comp_rename(e):
     """Rename comprehension / lambda variables positionally inside an expression (de Bruijn-like)."""
-    e = copy_ast(e)
+    e = _fuse_comprehensions(copy_ast(e))
     counter = [0]
 
     def rn(node, mapping):
@@ -517,7 +616,7 @@ def local_signatures(fi, params, surviving=None, keep=(), helper=None):
             body = ('opaque', d.kind, name)
         else:
             try:
-                v = flow.inline(v, d.stmt, stop=keep) if d.stmt is not None and d.kind in ('assign', 'aug') else v
+                v = flow.inline(v, d.stmt, stop=keep) if d.stmt is not None and d.kind in ('assign', 'aug', 'for', 'with') else v
             except AnalysisError:
                 pass
             if helper is not None:
@@ -551,6 +650,214 @@ def _is_closure_template(fi):
 
 
 _SWAP_OPS = {ast.NotEq: ast.Eq, ast.IsNot: ast.Is, ast.NotIn: ast.In, ast.Gt: ast.LtE, ast.GtE: ast.Lt}
+
+
+def _split_versions(fi, node):
+    """Live-range splitting: the assignments of one name are grouped into webs (two assignments belong together when
+    some read can see both); every web is a variable of its own and gets its own name. Re-using a name for unrelated
+    values (`pts = [..]; pts = ' '.join(pts)`, the same scratch name in several branches), or not, makes no difference."""
+    try:
+        tmp = FuncInfo(fi.module, fi.cls, fi.name, node, fi.qual)
+        flow = tmp.flow
+    except (AnalysisError, RecursionError):
+        return node
+    defs = {}
+    for ds in flow.defs_at.values():
+        for d in ds:
+            defs.setdefault(d.name, []).append(d)
+    blocked = set()
+    for n in ast.walk(node):
+        if n is not node and isinstance(n, (ast.FunctionDef, ast.AsyncFunctionDef, ast.Lambda, ast.ClassDef)):
+            blocked |= {x.id for x in ast.walk(n) if isinstance(x, ast.Name)}
+        elif isinstance(n, ast.comprehension):
+            blocked |= {x.id for x in ast.walk(n.target) if isinstance(x, ast.Name)}      # bound inside the comprehension
+        elif isinstance(n, (ast.Global, ast.Nonlocal)):
+            blocked |= set(n.names)
+
+    def walk_scope(n):
+        for c in ast.iter_child_nodes(n):
+            if isinstance(c, (ast.FunctionDef, ast.AsyncFunctionDef, ast.Lambda, ast.ClassDef)):
+                continue
+            yield c
+            yield from walk_scope(c)
+
+    def store_nodes(d):
+        """The Name nodes through which definition d binds its name."""
+        st = d.stmt
+        if d.kind == 'param':
+            return []
+        if isinstance(st, ast.Assign):
+            roots = st.targets
+        elif isinstance(st, ast.AugAssign):
+            roots = [st.target]
+        elif isinstance(st, ast.For):
+            roots = [st.target]
+        else:
+            return None
+        return [x for r_ in roots for x in ast.walk(r_) if isinstance(x, ast.Name) and x.id == d.name and isinstance(x.ctx, ast.Store)]
+    cands = {}
+    for name, ds in defs.items():
+        if name in blocked or len(ds) < 2 or name in ('self', 'cls'):
+            continue
+        if any(d.kind not in ('param', 'assign', 'aug', 'for') or store_nodes(d) is None for d in ds):
+            continue
+        if any(d.kind != 'param' and len(store_nodes(d)) != 1 for d in ds):
+            continue
+        cands[name] = ds
+    if not cands:
+        return node
+    stmt_of = {}
+    for st in walk_scope(node):
+        if isinstance(st, ast.stmt) and not isinstance(st, (ast.If, ast.For, ast.While, ast.With, ast.Try)):
+            for x in ast.walk(st):
+                stmt_of.setdefault(id(x), st)
+    parent = {}
+
+    def find(x):
+        while parent.setdefault(x, x) != x:
+            parent[x] = parent[parent[x]]
+            x = parent[x]
+        return x
+
+    def union(x, y):
+        parent[find(x)] = find(y)
+    use_defs = {}
+    for n in walk_scope(node):
+        if not (isinstance(n, ast.Name) and n.id in cands):
+            continue
+        if isinstance(n.ctx, ast.Del):
+            cands.pop(n.id, None)
+            continue
+        if isinstance(n.ctx, ast.Store):
+            st = stmt_of.get(id(n))
+            if not isinstance(st, ast.AugAssign):
+                continue            # plain store: a definition, handled through store_nodes
+        try:
+            rd = flow.defs_reaching(n.id, n)
+        except AnalysisError:
+            try:
+                rd = flow.defs_reaching(n.id, stmt_of[id(n)])
+            except (AnalysisError, KeyError):
+                cands.pop(n.id, None)
+                continue
+        if not rd:
+            cands.pop(n.id, None)
+            continue
+        rd = list(rd)
+        for d in rd[1:]:
+            union(id(rd[0]), id(d))
+        if isinstance(n.ctx, ast.Store):
+            # x += e reads x: the augmented definition belongs to the web of what it reads
+            for d in cands.get(n.id, ()):
+                if d.stmt is stmt_of.get(id(n)) and d.kind == 'aug':
+                    union(id(rd[0]), id(d))
+        else:
+            use_defs[id(n)] = rd[0]
+    for name, ds in cands.items():
+        comps = {}
+        for d in ds:
+            comps.setdefault(find(id(d)), []).append(d)
+        if len(comps) < 2:
+            continue
+
+        def first_pos(group):
+            if any(d.kind == 'param' for d in group):
+                return (-1, -1)
+            return min((getattr(d.stmt, 'lineno', 0), getattr(d.stmt, 'col_offset', 0)) for d in group)
+        ordered = sorted(comps.values(), key=first_pos)
+        web = {}
+        for k, group in enumerate(ordered):
+            for d in group:
+                web[id(d)] = k
+        for d in ds:
+            k = web[id(d)]
+            if k:
+                for x in store_nodes(d):
+                    x.id = '%s__w%d' % (name, k)
+        for n in walk_scope(node):
+            if isinstance(n, ast.Name) and isinstance(n.ctx, ast.Load) and id(n) in use_defs and n.id == name:
+                k = web.get(id(use_defs[id(n)]))
+                if k:
+                    n.id = '%s__w%d' % (name, k)
+    return node
+
+
+def _fold_temp_loops(fn):
+    """`v = []` directly followed by `for t in it: a = e1; b = e2; v.append(E)` where a, b are temporaries of that
+    iteration (assigned once in the function, read only inside the loop body)  ->  `v = [E[a:=e1, b:=e2] for t in it]`."""
+    def uses(name, where):
+        return sum(1 for x in ast.walk(where) if isinstance(x, ast.Name) and x.id == name)
+
+    def fold(body):
+        out = []
+        i = 0
+        while i < len(body):
+            s = body[i]
+            for field in ('body', 'orelse', 'finalbody'):
+                sub = getattr(s, field, None)
+                if isinstance(sub, list) and sub and isinstance(sub[0], ast.stmt) and not isinstance(s, (ast.FunctionDef, ast.ClassDef)):
+                    setattr(s, field, fold(sub))
+            for h in getattr(s, 'handlers', []) or []:
+                h.body = fold(h.body)
+            nxt = body[i + 1] if i + 1 < len(body) else None
+            tgt = s.targets[0] if isinstance(s, ast.Assign) and len(s.targets) == 1 else None
+            is_list = isinstance(s, ast.Assign) and isinstance(s.value, ast.List) and not s.value.elts
+            is_set = isinstance(s, ast.Assign) and isinstance(s.value, ast.Call) and isinstance(s.value.func, ast.Name) and s.value.func.id == 'set' \
+                and not s.value.args and not s.value.keywords
+            if isinstance(tgt, ast.Name) and (is_list or is_set) and isinstance(nxt, ast.For) and not nxt.orelse \
+                    and len(nxt.body) >= 2 and all(isinstance(x, ast.Assign) and len(x.targets) == 1 and isinstance(x.targets[0], ast.Name) for x in nxt.body[:-1]):
+                v = tgt.id
+                last = nxt.body[-1]
+                cond = None
+                if isinstance(last, ast.If) and not last.orelse and len(last.body) == 1:
+                    cond, last = last.test, last.body[0]
+                temps = [x.targets[0].id for x in nxt.body[:-1]]
+                ok = isinstance(last, ast.Expr) and isinstance(last.value, ast.Call) and isinstance(last.value.func, ast.Attribute) \
+                    and last.value.func.attr == ('append' if is_list else 'add') \
+                    and isinstance(last.value.func.value, ast.Name) and last.value.func.value.id == v and len(last.value.args) == 1 and not last.value.keywords
+                ok = ok and (cond is None or not uses(v, cond))
+                ok = ok and len(set(temps)) == len(temps) and v not in temps
+                ok = ok and not any(uses(v, x) for x in nxt.body[:-1]) and not uses(v, last.value.args[0]) and not uses(v, nxt.iter)
+                if ok:
+                    loop_names = sum(uses(t, nxt) for t in temps)
+                    ok = all(uses(t, fn) == uses(t, nxt) for t in temps)          # temporaries of the iteration only
+                    loop_targets = {x.id for x in ast.walk(nxt.target) if isinstance(x, ast.Name)}
+                    ok = ok and not (set(temps) & loop_targets)
+                if ok:
+                    expr = copy_ast(last.value.args[0])
+                    cexpr = copy_ast(cond) if cond is not None else None
+                    for a in reversed(nxt.body[:-1]):
+                        nm, val = a.targets[0].id, a.value
+
+                        class S(ast.NodeTransformer):
+                            def visit_Name(self, n):
+                                if n.id == nm and isinstance(n.ctx, ast.Load):
+                                    return copy_ast(val)
+                                return n
+                        from .core import free_names
+                        # capture: the temporary's definition must not mention a name the element expression binds itself
+                        inner_bound = {x.id for c in ast.walk(expr) if isinstance(c, ast.comprehension) for x in ast.walk(c.target) if isinstance(x, ast.Name)}
+                        if free_names(val) & inner_bound:
+                            ok = False
+                            break
+                        expr = S().visit(expr)
+                        if cexpr is not None:
+                            cexpr = S().visit(cexpr)
+                    if ok:
+                        gens = [ast.comprehension(target=nxt.target, iter=nxt.iter, ifs=[cexpr] if cexpr is not None else [], is_async=0)]
+                        comp = ast.ListComp(elt=expr, generators=gens) if is_list else ast.SetComp(elt=expr, generators=gens)
+                        new = ast.Assign(targets=s.targets, value=comp)
+                        ast.copy_location(new, nxt)
+                        ast.copy_location(comp, nxt)
+                        ast.fix_missing_locations(new)
+                        out.append(new)
+                        i += 2
+                        continue
+            out.append(s)
+            i += 1
+        return out
+    fn.body = fold(fn.body)
+    return fn
 
 
 def canonical_func(fi):
@@ -592,7 +899,257 @@ def canonical_func(fi):
                 n.body, n.orelse = n.orelse, n.body
             return n
     node = C().visit(node)
+
+    def names_in(e):
+        return {x.id for x in ast.walk(e) if isinstance(x, ast.Name)}
+
+    def uses_in_function(name):
+        return sum(1 for x in ast.walk(node) if isinstance(x, ast.Name) and x.id == name)
+
+    # names certainly bound before a statement (parameters and names assigned by an earlier statement of an enclosing list)
+    bound_before = {}
+
+    def mark(body, bound):
+        bound = set(bound)
+        for st in body:
+            bound_before[id(st)] = frozenset(bound)
+            for field in ('body', 'orelse', 'finalbody'):
+                sub = getattr(st, field, None)
+                if isinstance(sub, list) and sub and isinstance(sub[0], ast.stmt) and not isinstance(st, (ast.FunctionDef, ast.ClassDef)):
+                    mark(sub, bound | ({x.id for x in ast.walk(st.target) if isinstance(x, ast.Name)} if isinstance(st, ast.For) else set()))
+            for h in getattr(st, 'handlers', []) or []:
+                mark(h.body, bound)
+            if isinstance(st, ast.Assign):
+                for t in st.targets:
+                    bound |= {x.id for x in ast.walk(t) if isinstance(x, ast.Name) and isinstance(x.ctx, ast.Store)}
+    a_ = node.args
+    mark(node.body, {x.arg for x in a_.posonlyargs + a_.args + a_.kwonlyargs})
+
+    def sink_returns(body):
+        """`<if / try whose every arm ends in v = e>; return v`  ->  every arm ends in `return e`."""
+        for st in body:
+            for field in ('body', 'orelse', 'finalbody'):
+                sub = getattr(st, field, None)
+                if isinstance(sub, list) and sub and isinstance(sub[0], ast.stmt) and not isinstance(st, (ast.FunctionDef, ast.ClassDef)):
+                    sink_returns(sub)
+            for h in getattr(st, 'handlers', []) or []:
+                sink_returns(h.body)
+        if len(body) >= 2 and isinstance(body[-1], ast.Return) and isinstance(body[-1].value, ast.Name) and isinstance(body[-2], (ast.If, ast.Try)):
+            v = body[-1].value.id
+            if uses_in_function(v) == sum(1 for x in ast.walk(body[-2]) if isinstance(x, ast.Name) and x.id == v) + 1:
+                def arms(st):
+                    if isinstance(st, ast.If):
+                        return [st.body, st.orelse] if st.orelse else None
+                    if isinstance(st, ast.Try):
+                        if st.finalbody or st.orelse:
+                            return None
+                        return [st.body] + [h.body for h in st.handlers]
+                    return None
+
+                def convertible(lst):
+                    if not lst:
+                        return False
+                    last = lst[-1]
+                    if isinstance(last, ast.Assign) and len(last.targets) == 1 and isinstance(last.targets[0], ast.Name) and last.targets[0].id == v:
+                        return not any(isinstance(x, ast.Name) and x.id == v for st in lst[:-1] for x in ast.walk(st)) \
+                            and not any(isinstance(x, ast.Name) and x.id == v for x in ast.walk(last.value))
+                    if isinstance(last, (ast.If, ast.Try)):
+                        sub = arms(last)
+                        return sub is not None and all(convertible(a) for a in sub)
+                    return False
+
+                def convert(lst):
+                    last = lst[-1]
+                    if isinstance(last, ast.Assign):
+                        lst[-1] = ast.copy_location(ast.Return(value=last.value), last)
+                    else:
+                        for a in arms(last):
+                            convert(a)
+                top = arms(body[-2])
+                if top is not None and all(convertible(a) for a in top):
+                    for a in top:
+                        convert(a)
+                    body.pop()
+    sink_returns(node.body)
+
+    def forward_substitute(body):
+        """`t = e` directly followed by the only statement that reads t (once, at a position that is always evaluated):
+        the temporary is folded into that statement, so that the shape rules below see one statement, not two."""
+        changed = True
+        while changed:
+            changed = False
+            for i in range(len(body) - 1):
+                a, b = body[i], body[i + 1]
+                if not (isinstance(a, ast.Assign) and len(a.targets) == 1 and isinstance(a.targets[0], ast.Name)):
+                    continue
+                t = a.targets[0].id
+                if uses_in_function(t) != 2 or t in names_in(a.value):
+                    continue
+                if isinstance(b, (ast.Assign, ast.AugAssign, ast.Expr, ast.Return)) and b.value is not None:
+                    roots = [('value', b.value)]
+                    # a store target such as x[t] = v is evaluated after the value: fine as well
+                    if isinstance(b, ast.Assign):
+                        roots += [('targets', tt) for tt in b.targets if isinstance(tt, (ast.Subscript, ast.Attribute))]
+                elif isinstance(b, (ast.If, ast.While)) and not isinstance(b, ast.While):
+                    roots = [('test', b.test)]
+                elif isinstance(b, ast.For):
+                    roots = [('iter', b.iter)]
+                else:
+                    continue
+                hits = []
+
+                def find(n, cond):
+                    if isinstance(n, ast.Name) and n.id == t and isinstance(n.ctx, ast.Load):
+                        hits.append(cond)
+                        return
+                    if isinstance(n, (ast.Lambda, ast.ListComp, ast.SetComp, ast.DictComp, ast.GeneratorExp)):
+                        for c in ast.iter_child_nodes(n):
+                            find(c, True)
+                        return
+                    if isinstance(n, ast.IfExp):
+                        find(n.test, cond)
+                        find(n.body, True)
+                        find(n.orelse, True)
+                        return
+                    if isinstance(n, ast.BoolOp):
+                        find(n.values[0], cond)
+                        for v in n.values[1:]:
+                            find(v, True)
+                        return
+                    for c in ast.iter_child_nodes(n):
+                        find(c, cond)
+                for _, r_ in roots:
+                    find(r_, False)
+                if hits != [False]:
+                    continue
+                val = a.value
+
+                class S(ast.NodeTransformer):
+                    def visit_Name(self, n):
+                        if n.id == t and isinstance(n.ctx, ast.Load):
+                            return copy_ast(val)
+                        return n
+                if isinstance(b, (ast.Assign, ast.AugAssign, ast.Expr, ast.Return)):
+                    b.value = S().visit(b.value)
+                    if isinstance(b, ast.Assign):
+                        b.targets = [S().visit(tt) if isinstance(tt, (ast.Subscript, ast.Attribute)) else tt for tt in b.targets]
+                elif isinstance(b, ast.If):
+                    b.test = S().visit(b.test)
+                else:
+                    b.iter = S().visit(b.iter)
+                del body[i]
+                changed = True
+                break
+        for st in body:
+            for field in ('body', 'orelse', 'finalbody'):
+                sub = getattr(st, field, None)
+                if isinstance(sub, list) and sub and isinstance(sub[0], ast.stmt) and not isinstance(st, (ast.FunctionDef, ast.ClassDef)):
+                    forward_substitute(sub)
+            for h in getattr(st, 'handlers', []) or []:
+                forward_substitute(h.body)
+    forward_substitute(node.body)
+
+    class D(ast.NodeTransformer):
+        """`a, b = x, y` with independent sides is `a = x; b = y`; `for i, v in enumerate(xs)` over a named sequence
+        is `for i in range(len(xs)): v = xs[i]` (the element name is then inlined wherever that is sound)."""
+        def visit_FunctionDef(self, n):
+            if n is node:
+                self.generic_visit(n)
+            return n
+
+        def visit_Assign(self, n):
+            if len(n.targets) == 1 and isinstance(n.targets[0], (ast.Tuple, ast.List)) and isinstance(n.value, (ast.Tuple, ast.List)) \
+                    and len(n.targets[0].elts) == len(n.value.elts) and all(isinstance(t, ast.Name) for t in n.targets[0].elts) \
+                    and not any(isinstance(v, ast.Starred) for v in n.value.elts):
+                tnames = {t.id for t in n.targets[0].elts}
+                if len(tnames) == len(n.targets[0].elts) and not any(tnames & names_in(v) for v in n.value.elts):
+                    return [ast.copy_location(ast.Assign(targets=[t], value=v), n) for t, v in zip(n.targets[0].elts, n.value.elts)]
+            return n
+
+        def visit_If(self, n):
+            self.generic_visit(n)
+            # a conditional re-binding `if c: v = E` is `v = E if c else v`
+            if len(n.body) == 1 and not n.orelse and isinstance(n.body[0], ast.Assign) and len(n.body[0].targets) == 1 \
+                    and isinstance(n.body[0].targets[0], ast.Name) and n.body[0].targets[0].id not in names_in(n.test) \
+                    and n.body[0].targets[0].id in bound_before.get(id(n), ()):
+                a = n.body[0]
+                v = ast.IfExp(test=n.test, body=a.value, orelse=ast.Name(id=a.targets[0].id, ctx=ast.Load()))
+                return ast.copy_location(ast.Assign(targets=a.targets, value=ast.copy_location(v, n)), n)
+            # both arms do the same thing with one differing operand: the choice moves into the operand
+            if len(n.body) == 1 and len(n.orelse) == 1:
+                a, b = n.body[0], n.orelse[0]
+                if isinstance(a, ast.Assign) and isinstance(b, ast.Assign) and len(a.targets) == 1 and len(b.targets) == 1 \
+                        and isinstance(a.targets[0], ast.Name) and isinstance(b.targets[0], ast.Name) and a.targets[0].id == b.targets[0].id \
+                        and a.targets[0].id not in names_in(n.test):
+                    v = ast.IfExp(test=n.test, body=a.value, orelse=b.value)
+                    return ast.copy_location(ast.Assign(targets=a.targets, value=ast.copy_location(v, n)), n)
+                if isinstance(a, ast.Expr) and isinstance(b, ast.Expr) and isinstance(a.value, ast.Call) and isinstance(b.value, ast.Call):
+                    ca, cb = a.value, b.value
+                    if ast.dump(ca.func) == ast.dump(cb.func) and len(ca.args) == len(cb.args) and not ca.keywords and not cb.keywords \
+                            and not any(isinstance(x, ast.Starred) for x in ca.args + cb.args):
+                        diff = [i for i, (x, y) in enumerate(zip(ca.args, cb.args)) if ast.dump(x) != ast.dump(y)]
+                        if len(diff) == 1:
+                            i = diff[0]
+                            args = list(ca.args)
+                            args[i] = ast.copy_location(ast.IfExp(test=n.test, body=ca.args[i], orelse=cb.args[i]), n)
+                            return ast.copy_location(ast.Expr(value=ast.copy_location(ast.Call(func=ca.func, args=args, keywords=[]), n)), n)
+            return n
+
+        def visit_For(self, n):
+            self.generic_visit(n)
+            it = n.iter
+            body_names = [x for st in n.body for x in ast.walk(st) if isinstance(x, ast.Name)]
+            # the index of an enumerate that nobody reads: plain iteration
+            if isinstance(it, ast.Call) and isinstance(it.func, ast.Name) and it.func.id == 'enumerate' and len(it.args) == 1 and not it.keywords \
+                    and isinstance(n.target, ast.Tuple) and len(n.target.elts) == 2 and isinstance(n.target.elts[0], ast.Name) \
+                    and uses_in_function(n.target.elts[0].id) == 1:
+                n.target = n.target.elts[1]
+                n.iter = it.args[0]
+                return n
+            # an index that is only ever used to fetch the element of the sequence iterated over: plain iteration
+            if isinstance(it, ast.Call) and isinstance(it.func, ast.Name) and it.func.id == 'range' and len(it.args) == 1 and not it.keywords \
+                    and isinstance(it.args[0], ast.Call) and isinstance(it.args[0].func, ast.Name) and it.args[0].func.id == 'len' and len(it.args[0].args) == 1 \
+                    and isinstance(it.args[0].args[0], (ast.Name, ast.Attribute)) and isinstance(n.target, ast.Name):
+                xs = it.args[0].args[0]
+                i = n.target.id
+                key = ast.dump(xs)
+                subs = [x for st in n.body for x in ast.walk(st) if isinstance(x, ast.Subscript) and isinstance(x.slice, ast.Name) and x.slice.id == i
+                        and ast.dump(x.value) == key]
+                n_i = sum(1 for x in body_names if x.id == i)
+                xs_names = names_in(xs)
+                rebinds = any(isinstance(x, ast.Name) and isinstance(x.ctx, ast.Store) and x.id in (xs_names | {i}) for st in n.body for x in ast.walk(st))
+                direct_store = any(isinstance(x.ctx, (ast.Store, ast.Del)) for x in subs)
+                if subs and n_i == len(subs) and uses_in_function(i) == n_i + 1 and not rebinds and not direct_store:
+                    elem = '%s__elem' % (xs.id if isinstance(xs, ast.Name) else xs.attr)
+                    if uses_in_function(elem) == 0:
+                        class E(ast.NodeTransformer):
+                            def visit_Subscript(self, x):
+                                self.generic_visit(x)
+                                if isinstance(x.slice, ast.Name) and x.slice.id == i and ast.dump(x.value) == key:
+                                    return ast.copy_location(ast.Name(id=elem, ctx=ast.Load()), x)
+                                return x
+                        n.body = [E().visit(st) for st in n.body]
+                        n.target = ast.copy_location(ast.Name(id=elem, ctx=ast.Store()), n.target)
+                        n.iter = xs
+                        return n
+            if isinstance(it, ast.Call) and isinstance(it.func, ast.Name) and it.func.id == 'enumerate' and len(it.args) == 1 and not it.keywords \
+                    and isinstance(it.args[0], (ast.Name, ast.Attribute)) and isinstance(n.target, ast.Tuple) and len(n.target.elts) == 2 \
+                    and all(isinstance(t, ast.Name) for t in n.target.elts):
+                i, v = n.target.elts
+                xs = it.args[0]
+                body_stores = {x.id for st in n.body for x in ast.walk(st) if isinstance(x, ast.Name) and isinstance(x.ctx, ast.Store)}
+                if i.id not in body_stores and not (names_in(xs) & (body_stores | {i.id, v.id})):
+                    n.target = ast.copy_location(ast.Name(id=i.id, ctx=ast.Store()), i)
+                    n.iter = ast.copy_location(ast.Call(func=ast.Name(id='range', ctx=ast.Load()), args=[
+                        ast.Call(func=ast.Name(id='len', ctx=ast.Load()), args=[copy_ast(xs)], keywords=[])], keywords=[]), it)
+                    first = ast.copy_location(ast.Assign(targets=[ast.Name(id=v.id, ctx=ast.Store())], value=ast.Subscript(
+                        value=copy_ast(xs), slice=ast.Name(id=i.id, ctx=ast.Load()), ctx=ast.Load())), n)
+                    n.body = [first] + n.body
+            return n
+    node = D().visit(node)
     ast.fix_missing_locations(node)
+    node = _split_versions(fi, node)
+    node = _fold_temp_loops(node)
     # positions follow the canonical shape (pre-order), the original line is kept for reports
     counter = [0]
 
@@ -666,6 +1223,25 @@ def effects(fi, keep=(), use_semiring=True, helper=None):
         return semiring(t) if use_semiring else t
     NEG = {'Eq': 'NotEq', 'NotEq': 'Eq', 'Lt': 'GtE', 'GtE': 'Lt', 'Gt': 'LtE', 'LtE': 'Gt', 'Is': 'IsNot', 'IsNot': 'Is', 'In': 'NotIn', 'NotIn': 'In'}
 
+    def neg_term(t):
+        if not isinstance(t, tuple) or not t:
+            return None
+        if t[0] == 'cmp' and len(t) == 4 and len(t[1]) == 1 and t[1][0] in NEG:
+            op, l, r = NEG[t[1][0]], t[2], t[3]
+            if op in ('Gt', 'GtE'):
+                op, l, r = {'Gt': 'Lt', 'GtE': 'LtE'}[op], r, l
+            if op in ('Eq', 'NotEq'):
+                l, r = sorted([l, r], key=repr)
+            return ('cmp', (op,), l, r)
+        if t[0] == 'unary' and t[1] == 'Not':
+            return t[2]
+        if t[0] in ('and', 'or'):
+            parts = [neg_term(x) for x in t[1:]]
+            if any(p is None for p in parts):
+                return None
+            return ('or' if t[0] == 'and' else 'and',) + tuple(sorted(parts, key=repr))
+        return None
+
     def norm_ctx(c):
         kind = c[0]
         if kind in ('if', 'ifnot') and len(c) == 2 and isinstance(c[1], tuple):
@@ -673,9 +1249,19 @@ def effects(fi, keep=(), use_semiring=True, helper=None):
             while t and t[0] == 'unary' and t[1] == 'Not':
                 kind = 'ifnot' if kind == 'if' else 'if'
                 t = t[2]
+            if t and len(t) == 4 and t[0] == 'call' and t[1] == ('fn', 'len'):
+                t = ('cmp', ('NotEq',), t, ('const', '0'))        # `if len(x):`
+            if kind == 'ifnot' and t and t[0] in ('and', 'or'):
+                nt = neg_term(t)                                   # De Morgan: `ifnot (a or b)` is `if (not a and not b)`
+                if nt is not None:
+                    kind, t = 'if', nt
             if kind == 'ifnot' and t and t[0] == 'cmp' and len(t[1]) == 1 and t[1][0] in NEG:
                 kind = 'if'
-                t = ('cmp', (NEG[t[1][0]],)) + t[2:]
+                op = NEG[t[1][0]]
+                l, r = t[2], t[3]
+                if op in ('Gt', 'GtE'):
+                    op, l, r = {'Gt': 'Lt', 'GtE': 'LtE'}[op], r, l
+                t = ('cmp', (op,), l, r)
             return (kind, t)
         return c
     for e in effs:
@@ -731,8 +1317,12 @@ def compare(fi, tmpl, keep=()):
                 return True
             t1, t2 = c1[1], c2[1]
             if c1[0] == c2[0] and isinstance(t1, tuple) and isinstance(t2, tuple) and t1 and t2 and t1[0] == 'cmp' and t2[0] == 'cmp' \
-                    and len(t1[1]) == 1 and NEGOP.get(t1[1][0]) == t2[1][0] and t1[2:] == t2[2:]:
-                return True
+                    and len(t1[1]) == 1 and len(t1) == 4 and t1[1][0] in NEGOP:
+                op, l, r = NEGOP[t1[1][0]], t1[2], t1[3]
+                if op in ('Gt', 'GtE'):          # canon keeps one orientation of order comparisons
+                    op, l, r = {'Gt': 'Lt', 'GtE': 'LtE'}[op], r, l
+                if ('cmp', (op,), l, r) == t2:
+                    return True
             return False
 
         def exclusive(e1, e2):
@@ -742,6 +1332,22 @@ def compare(fi, tmpl, keep=()):
                     continue
                 return negates(x, y)
             return False
+        def contains_term(t, sub):
+            if t == sub:
+                return True
+            return isinstance(t, tuple) and any(contains_term(x, sub) for x in t)
+
+        def independent(e1, e2):
+            # plain stores into two different attributes of one object, neither reading what the other writes
+            k1, k2 = e1.key, e2.key
+            if k1[0] != 'store' or k2[0] != 'store':
+                return False
+            t1, t2 = k1[2], k2[2]
+            if not (isinstance(t1, tuple) and isinstance(t2, tuple) and len(t1) == 3 and len(t2) == 3 and t1[0] == 'attr' and t2[0] == 'attr'):
+                return False
+            if t1[1] != t2[1] or t1[2] == t2[2]:
+                return False
+            return not contains_term(k1[3], t2) and not contains_term(k2[3], t1) and not contains_term(k1[1], t2) and not contains_term(k2[1], t1)
         for sym in sorted(set().union(*[s for _, s in sb]) if sb else ()):
             la = [e for e, s in sa if sym in s]
             lb = [e for e, s in sb if sym in s]
@@ -755,7 +1361,7 @@ def compare(fi, tmpl, keep=()):
             bad = None
             for i in range(len(la)):
                 for j in range(i + 1, len(la)):
-                    if pos[i] is not None and pos[j] is not None and pos[i] > pos[j] and not exclusive(la[i], la[j]):
+                    if pos[i] is not None and pos[j] is not None and pos[i] > pos[j] and not exclusive(la[i], la[j]) and not independent(la[i], la[j]):
                         bad = (la[i], lb[pos[j]])
                         break
                 if bad:
